@@ -69,7 +69,7 @@ def _sample(rng: Rng, xs: List[str], k: int) -> List[str]:
     return rng.shuffle(list(xs))[:k]
 
 
-def gen_load_case(rng: Rng, max_ops: int = 24) -> dict:
+def gen_load_case(rng: Rng, max_ops: int = 24, multi: bool = False) -> dict:
     defaults: Dict[str, Any] = {}
     malformed_ok = rng.chance(1, 5)
     for k in KEYS:
@@ -115,7 +115,47 @@ def gen_load_case(rng: Rng, max_ops: int = 24) -> dict:
             ops.append({"op": "runinst", "name": rng.choice(APP_TYPES)})
         else:
             ops.append({"op": rng.choice(["rshut", "rstart"])})
-    return {"defaults": defaults, "section": section, "node": node, "ops": ops[:n], "focus": "load-random"}
+    case = {"defaults": defaults, "section": section, "node": node, "ops": ops[:n], "focus": "load-random"}
+    if multi:
+        _add_peers(rng, case)
+    return case
+
+
+PEER_SVC = ["database-service", "dns-server", "ftp-server", "ntp-server", "web-server", "ntp-client"]
+
+
+def _add_peers(rng: Rng, case: dict):
+    """1-2 further hosts, a switch and links; a server among them lists `database-service` (most of the time), another host may
+    list a `database-client` pointing at it; a share of the operations is redirected to the peers"""
+    peers = []
+    for i in range(rng.range(1, 2)):
+        kind = "server" if i == 0 else rng.choice(["computer", "server"])
+        types = _sample(rng, PEER_SVC[1:], rng.range(0, 2))
+        if i == 0 and rng.chance(3, 4):
+            types = ["database-service"] + types
+        svcs = []
+        for t in types:
+            e: Dict[str, Any] = {"type": t}
+            if t != "database-service" and rng.chance(1, 3):
+                e["options"] = {"fixing_duration": rng.choice([0, 1, 3])}
+            svcs.append(e)
+        apps = []
+        if i == 1 and rng.chance(1, 2):
+            apps.append({"type": "database-client", "options": {"db_server_ip": "192.168.1.3"}})
+        elif rng.chance(1, 3):
+            apps.append({"type": rng.choice(["web-browser", "nmap", "dos-bot"])})
+        peers.append({"hostname": f"peer{i + 1}", "kind": kind, "services": svcs, "applications": apps})
+    case["peers"] = peers
+    case["focus"] = "load-multi"
+    hosts = [HOST] + [p_["hostname"] for p_ in peers]
+    for op in case["ops"]:
+        if op["op"] != "tick" and rng.chance(2, 5):
+            h = rng.choice(hosts[1:])
+            nd = next(p_ for p_ in peers if p_["hostname"] == h)
+            if op["op"] == "sreq":
+                names = [e["type"] for e in nd["services"]] + ["ntp-client", "dns-client", "ftp-client"]
+                op["name"] = rng.choice(names)
+            op["host"] = h
 
 
 def enum_load_cases() -> List[dict]:
@@ -148,6 +188,21 @@ def enum_load_cases() -> List[dict]:
                 "node": {"kind": "computer", "services": [{"type": "dns-server"}, {"type": "ntp-server", "options": {}}], "applications": []},
                 "ops": [{"op": "sreq", "name": "dns-server", "r": "restart"}] + [{"op": "tick"}] * (RESTART_DEFAULT + 1) +
                        [{"op": "sreq", "name": "ntp-server", "r": "restart"}, {"op": "tick"}], "focus": "load-enum"})
+    # several hosts on a switch, `database-service` listed on a server, a database client on another host: every pool value of the
+    # restart duration reaches every listed service of EVERY host
+    for i, v in enumerate(POOL):
+        defaults = {} if v == "A" else {"service_restart_duration": v}
+        d = RESTART_DEFAULT if v == "A" else max(int(v), 0)
+        ops = [{"op": "sreq", "name": "database-service", "r": "restart", "host": "peer1"}, {"op": "sreq", "name": "dns-server", "r": "restart"},
+               {"op": "tick"}, {"op": "sreq", "name": "database-service", "r": "pause", "host": "peer1"}] + [{"op": "tick"}] * (d + 1) + \
+              [{"op": "rinst", "name": "dos-bot", "host": "peer2"}, {"op": "tick"}, {"op": "sreq", "name": "ftp-server", "r": "restart", "host": "peer2"},
+               {"op": "tick"}]
+        out.append({"defaults": defaults, "section": "present" if defaults or i % 2 else "absent",
+                    "node": {"kind": "computer", "services": [{"type": "dns-server"}], "applications": []},
+                    "peers": [{"hostname": "peer1", "kind": "server", "services": [{"type": "database-service"}, {"type": "web-server"}], "applications": []},
+                              {"hostname": "peer2", "kind": "computer", "services": [{"type": "ftp-server", "options": {"fixing_duration": 1}}],
+                               "applications": [{"type": "database-client", "options": {"db_server_ip": "192.168.1.3"}}]}],
+                    "ops": ops, "focus": "load-multi-enum"})
     for bad in MALFORMED:   # a value the loader cannot convert: the load raises (and the specification says so)
         out.append({"defaults": {"service_restart_duration": bad}, "section": "present",
                     "node": {"kind": "computer", "services": [{"type": "dns-server"}], "applications": []}, "ops": [], "focus": "load-enum"})
@@ -161,8 +216,16 @@ def build_cfg(case: dict) -> dict:
     if "up" in nd:
         node["start_up_duration"] = nd["up"]
         node["shut_down_duration"] = nd["down"]
+    nodes, links = [node], []
+    if case.get("peers"):
+        for i, p_ in enumerate(case["peers"]):
+            nodes.append({"hostname": p_["hostname"], "type": p_["kind"], "ip_address": f"192.168.1.{3 + i}", "subnet_mask": "255.255.255.0",
+                          "services": copy.deepcopy(p_["services"]), "applications": copy.deepcopy(p_["applications"])})
+        nodes.append({"hostname": "sw0", "type": "switch", "num_ports": 4})
+        for i, h in enumerate([HOST] + [p_["hostname"] for p_ in case["peers"]]):
+            links.append({"endpoint_a_hostname": "sw0", "endpoint_a_port": i + 1, "endpoint_b_hostname": h, "endpoint_b_port": 1})
     cfg = {"io_settings": dict(IO), "game": {"max_episode_length": 256, "ports": [], "protocols": []}, "agents": [],
-           "simulation": {"network": {"nodes": [node], "links": []}}}
+           "simulation": {"network": {"nodes": nodes, "links": links}}}
     if case.get("section", "present") == "present":
         cfg["defaults"] = copy.deepcopy(case["defaults"])
     return cfg
@@ -172,10 +235,12 @@ def build_cfg(case: dict) -> dict:
 class LoadedImpl(base.Impl):
     """the bookkeeping of `software.Impl` around a node that `PrimaiteGame.from_config` built"""
 
-    def __init__(self, game, node, case: dict, guards: Dict[str, bool]):  # noqa  (does not call Impl.__init__: no make_node)
+    def __init__(self, game, node, case: dict, guards: Dict[str, bool], nd: Optional[dict] = None, hostname: str = HOST):  # noqa  (no Impl.__init__)
         from primaite.simulator.system.applications.application import Application
+        nd = nd or case["node"]
+        self.hostname = hostname
         self.game = game
-        self.kind = case["node"]["kind"]
+        self.kind = nd["kind"]
         self.node = node
         self.is_host = True
         self.sm = node.software_manager
@@ -187,13 +252,26 @@ class LoadedImpl(base.Impl):
         self.skipped_installs = self.refused_installs = self.replaced_installs = 0
         self.payload_hits = []
         defaults = case["defaults"] if case.get("section", "present") == "present" else {}
-        listed = {e["type"]: e for e in case["node"]["services"]}
-        listed_apps = {e["type"] for e in case["node"]["applications"]}
+        listed = {e["type"]: e for e in nd["services"]}
+        listed_apps = {e["type"] for e in nd["applications"]}
         # the loader builds the node with both power durations 0, installs, then `power_on()` (start-up actions), then writes the durations
         self.model_init = ["node ON 0 0"]
         self.init_impl: List[Optional[str]] = ["ok"]
         post: List[str] = []
+        # order of description = order of `software`, except that services / applications come in the order of `node.services` /
+        # `node.applications`: `DatabaseService.install()` installs an FTP client INSIDE its own installation (nested install: the
+        # client enters `software` first, the database service enters `node.services` first).  The model has no nested install; the
+        # rig describes the two as consecutive installs in `node.services` order (what ticks and power events follow); the dump
+        # lists `software` sorted by name, so the one order the model cannot reproduce here is not compared (noted as a gap).
+        from primaite.simulator.system.services.service import Service
+        s_it, a_it = iter(list(node.services.values())), iter(list(node.applications.values()))
+        ordered = []
         for obj in self.sm.software.values():
+            ordered.append(next(s_it, obj) if isinstance(obj, Service) else (next(a_it, obj) if isinstance(obj, Application) else obj))
+        if sorted(map(id, ordered)) != sorted(map(id, self.sm.software.values())):
+            ordered = list(self.sm.software.values())   # registries disagree: the oracle reports it
+        self.nested_order = [o.name for o in ordered] != list(self.sm.software)
+        for obj in ordered:
             self._adopt(obj)
             u = self.uid(obj)
             if obj.name in listed and not isinstance(obj, Application):
@@ -224,7 +302,7 @@ class LoadedImpl(base.Impl):
             except TypeError:
                 return "raised", "tick"
         if k == "sreq" and op["name"]:
-            r = self.game.simulation.apply_request(["network", "node", HOST, "service", op["name"], op["r"]])
+            r = self.game.simulation.apply_request(["network", "node", self.hostname, "service", op["name"], op["r"]])
             return r.status, f"sreq {base._w(op['name'])} {op['r']}"
         return super().do(op)
 
@@ -233,7 +311,9 @@ def run_load_case(case: dict, guards: Dict[str, bool]) -> dict:
     base.load()
     from primaite.game.game import PrimaiteGame
     defaults = case["defaults"] if case.get("section", "present") == "present" else {}
-    svcs = case["node"]["services"]
+    view = case.get("view", HOST)
+    descr = {HOST: case["node"], **{p_["hostname"]: p_ for p_ in case.get("peers", [])}}
+    svcs = descr[view]["services"]
     # -- the specification's answer for every listed service (one driver line)
     words = ["loadall", show_dict(defaults), str(RESTART_DEFAULT)]
     for e in svcs:
@@ -246,8 +326,25 @@ def run_load_case(case: dict, guards: Dict[str, bool]) -> dict:
     except (TypeError, ValueError) as e:   # int(None) / int("abc"): the loader's conversion raised
         if "int()" not in str(e):
             raise
+        # the load is one act for the whole scenario: it raises at the FIRST host (in file order) that lists a service; the
+        # specification line of a failed load is therefore that host's, whatever the view
+        if len(descr) > 1:
+            from harness.lib.core import run_driver
+            cands = []
+            for h in descr:
+                if descr[h]["services"]:
+                    words = ["loadall", show_dict(defaults), str(RESTART_DEFAULT)]
+                    for e2 in descr[h]["services"]:
+                        opts = e2.get("options", {})
+                        words += [show_dict(opts), str(opts.get("fixing_duration", FIX_DEFAULT))]
+                    cands.append(" ".join(words))
+            # the first host for which the SPECIFICATION raises (asked of the driver); none: the first host with services, and the
+            # comparison reports the difference
+            spec = run_driver("drv_c13", cands) if cands else []
+            pick = next((l for l, a in zip(cands, spec) if a == "raised"), cands[0] if cands else lines[0])
+            lines = [pick]
         return {"impl": ["raised"], "lines": lines, "oracle": oracle, "loaded": False}
-    node = game.simulation.network.get_node_by_hostname(HOST)
+    node = game.simulation.network.get_node_by_hostname(view)
     unconvertible = False
     for k in KEYS:
         try:
@@ -273,7 +370,8 @@ def run_load_case(case: dict, guards: Dict[str, bool]) -> dict:
         # the load went through although a value of the section cannot be converted: the specification says it raises; only the
         # first line is compared (the configured value the model would need does not exist)
         return {"impl": impl, "lines": lines, "oracle": oracle, "loaded": True}
-    im = LoadedImpl(game, node, case, guards)
+    ims = {h: LoadedImpl(game, game.simulation.network.get_node_by_hostname(h), case, guards, nd=descr[h], hostname=h) for h in descr}
+    im = ims[view]
     lines += im.model_init
     impl += im.init_impl
     lines.append("dump")
@@ -281,6 +379,18 @@ def run_load_case(case: dict, guards: Dict[str, bool]) -> dict:
     for kind, detail in im.oracle():
         oracle.append((-1, kind, detail, False))
     for i, op in enumerate(case["ops"]):
+        target = op.get("host", HOST)
+        if op["op"] != "tick" and target != view:
+            # an operation on ANOTHER host of the scenario: it runs on the real game; the viewed host's model gets no line — its
+            # state must not change (compared by the next dump)
+            if target in ims:
+                try:
+                    ims[target].do(op)
+                except Exception:  # noqa  -- the other host's own view reports it
+                    pass
+            lines.append("dump")
+            impl.append(im.dump())
+            continue
         ans, line = im.do(op)
         if line is None:
             continue
